@@ -37,6 +37,7 @@ func (st *State) smLoad(m Val, k Val) (ok string, v Val) {
 
 func (st *State) smStore(m Val, k, v Val) {
 	st.written[smDom] = true
+	st.publish(v, "")
 	d, vt, vv := st.smArrs()
 	id, kt := st.smID(m), smKey(k)
 	st.setArr(smDom, "(Array Int (Array Int Bool))", store(d, id, store(sel(d, id), kt, "true")))
@@ -186,19 +187,23 @@ func (st *State) rangeReturn(fr *Frame, res []Val) bool {
 
 func init() {
 	models["(*sync.Map).Load"] = func(st *State, fr *Frame, fn *ssa.Function, a []Val, pos token.Pos) (*Val, bool) {
+		st.smOps++
 		ok, v := st.smLoad(a[0], a[1])
 		st.assumeLoaded(v)
 		return rv(Val{C: []string{v.C[0], v.C[1], ok}})
 	}
 	models["(*sync.Map).Store"] = func(st *State, fr *Frame, fn *ssa.Function, a []Val, pos token.Pos) (*Val, bool) {
+		st.smOps++
 		st.smStore(a[0], a[1], a[2])
 		return nil, true
 	}
 	models["(*sync.Map).Delete"] = func(st *State, fr *Frame, fn *ssa.Function, a []Val, pos token.Pos) (*Val, bool) {
+		st.smOps++
 		st.smDelete(a[0], a[1])
 		return nil, true
 	}
 	models["(*sync.Map).LoadAndDelete"] = func(st *State, fr *Frame, fn *ssa.Function, a []Val, pos token.Pos) (*Val, bool) {
+		st.smOps++
 		ok, v := st.smLoad(a[0], a[1])
 		st.assumeLoaded(v)
 		st.smDelete(a[0], a[1])
